@@ -10,6 +10,13 @@ file and the stdout of init/add-key are scanned for every secret in raw / hex / 
 windows, path components, note, timestamps, content digests of chunks and files, shared key, MAC key, chunker key, shared-KDF
 salt, user key, derived chunk keys, passwords); nonce uniqueness per key from the instrumented `encrypt`; the config holds
 algorithm settings only.
+Client state (the theorems `faithful_views_run` / `client_history_public` / `stale_view_leaks`): every command is issued by a
+client whose view of `encrypted` comes from whatever it parsed as the config.  Both the symbolic tie (`w_world`) and the
+real-cipher scan (`w_client`) therefore also run WORLDS: 2–3 repositories with different encryption settings (and locations
+that are wiped and re-initialised with the opposite mode) used from one machine — one cache directory for all of them (the CLI
+default), one per location, or none —, commands interleaved, one fresh client per command.  Every repository is compared with
+the model of its own history alone (`runView` with the views the real clients had; a stale view = broken tie hypothesis) and
+every ENCRYPTED repository's objects and names are classified by `Public` / `nameKeyed` and scanned for its secrets.
 """
 import base64
 import json
@@ -33,9 +40,22 @@ def w_symbolic(arg):
     common.use_rebuilt_chunker()
     r = rng_for(seed, 'C05-sym', idx)
     hist = H.gen_history(r, encrypted=r.random() < 0.9, n_ops=r.choice([5, 7, 9]))
-    obs = H.run_tagged_history(hist, 'c05s_%d' % idx)
+    obs = H.run_tagged_history(hist, 'c05s_%d' % idx, views=True)
     obs['idx'] = idx
     return obs
+
+
+@H.guarded
+def w_world(arg):
+    """client-state world, tagged adapters: → dict(repos=[obs per repository incarnation], world=stats)"""
+    seed, idx, tier = arg
+    from .. import common
+    common.use_rebuilt_chunker()
+    r = rng_for(seed, 'C05-world', idx)
+    world = H.gen_world(r, n_ops=r.choice([6, 8, 10]))
+    res = H.run_tagged_world(world, 'c05w_%d' % idx)
+    res['idx'] = idx
+    return res
 
 
 # ------------------------------------------------------------------ the scan
@@ -63,6 +83,93 @@ def windows(data, n=12):
         seen.add(w)
         out.append(w)
     return out
+
+
+def snapshot_secrets(s, tree, note, mt, part='all'):
+    """what a snapshot must keep from a key-less observer: → [(label, bytes, windowed?)].  `part`: 'inputs' = what is known
+    before the command runs (`s` unused), 'results' = what only its result tells, 'all' = both"""
+    secrets = []
+    if part in ('all', 'inputs'):
+        for nm, data in tree.items():
+            secrets.append(('file-bytes', data, True))
+            for comp in nm.split('/'):
+                secrets.append(('path', comp.encode(), False))
+            secrets.append(('metadata:mtime_ns', str(mt[nm]).encode(), False))
+        if note:
+            secrets.append(('note', note.encode(), False))
+    if part == 'inputs':
+        return secrets
+    secrets.append(('metadata:utc_timestamp', s['result'].data['utc_timestamp'].encode(), False))
+    for d in s['result'].chunks:
+        secrets.append(('chunk-digest', bytes(d), False))
+    for f in s['result'].data['files']:
+        if f['digest'] is not None:
+            secrets.append(('file-digest', bytes(f['digest']), False))
+    for c in s['chunks']:
+        secrets.append(('chunk-bytes', c, True))
+    props = s['repo'].props
+    if getattr(props, 'encrypted', False):
+        for d in s['result'].chunks[:6]:
+            secrets.append(('chunk-key', props.derive_shared_subkey(bytes(d)), False))
+    return secrets
+
+
+def key_secrets(w, pws, cache_directory=T.SymWorld._OWN):
+    secrets = []
+    for ui in range(len(w.keys)):
+        p = w.repo(ui, cache_directory).props
+        secrets.append(('user-key', p.userkey, False))
+        for k in ('shared_key', 'mac_params', 'chunker_params', 'shared_kdf_params'):
+            secrets.append(('private:' + k, bytes(p.private[k]), False))
+    for pw in pws:
+        secrets.append(('password', pw, False))
+    return secrets
+
+
+def observed_of(w):
+    """what an observer has: every uploaded object and name, the emitted key files, the stdout of init / add-key"""
+    observed = []
+    for e in w.backend.events:
+        if e[0] == 'put':
+            observed.append(('object ' + e[1][:20], e[2]))
+            observed.append(('name', e[1].encode()))
+    for ui in range(len(w.keys)):
+        observed.append(('key file %d' % ui, w.serialized_key(ui)))
+    for cmd, text in w.stdout:
+        observed.append(('stdout of ' + cmd, text.encode()))
+    return observed
+
+
+def scan(observed, secrets, violations, extra=None):
+    """every secret, in every form, against everything observed → (searches, observed bytes)"""
+    hay = b'\x00|\x00'.join(b for _, b in observed)
+    hits = set()
+    nsearch = 0
+    for label, sec_bytes, win in secrets:
+        if len(sec_bytes) < 6:
+            continue
+        for piece in (windows(sec_bytes) if win else [sec_bytes]):
+            for fname, pat in forms(piece):
+                nsearch += 1
+                if pat in hay and (label, fname) not in hits:
+                    hits.add((label, fname))
+                    where = next(lbl for lbl, b in observed if pat in b)
+                    violations.append((f'c05:leak:{label}', f'{label} visible ({fname}) in {where}: …{pat[:24]!r}…',
+                                       dict(extra or {}, secret=label, form=fname, where=where)))
+    return nsearch, len(hay)
+
+
+def check_config(cfg, violations):
+    """the config holds algorithm settings only"""
+    def walk(o, path=''):
+        if isinstance(o, dict):
+            for k, v in o.items():
+                if k not in SETTING_KEYS:
+                    violations.append(('c05:config:non-setting', f'config member {path}/{k} is not an algorithm setting', {'member': k}))
+                walk(v, path + '/' + k)
+        elif not isinstance(o, (str, int)) or (isinstance(o, str) and not re.fullmatch(r'[a-z0-9_]{1,24}', o)):
+            violations.append(('c05:config:non-setting', f'config value at {path} is {o!r}', {'member': path}))
+    walk(cfg)
 
 
 @H.guarded
@@ -105,60 +212,14 @@ def w_scan(arg):
                 mt = {nm: 1_700_000_000_000_000_000 + r.randrange(10 ** 17) for nm in tree}
                 s = w.snapshot(r.randrange(len(w.keys)), tree, note=note, mtimes=mt)
                 snaps.append(s)
-                for nm, data in tree.items():
-                    secrets.append(('file-bytes', data, True))
-                    for comp in nm.split('/'):
-                        secrets.append(('path', comp.encode(), False))
-                    secrets.append(('metadata:mtime_ns', str(mt[nm]).encode(), False))
-                if note:
-                    secrets.append(('note', note.encode(), False))
-                secrets.append(('metadata:utc_timestamp', s['result'].data['utc_timestamp'].encode(), False))
-                for d in s['result'].chunks:
-                    secrets.append(('chunk-digest', bytes(d), False))
-                for f in s['result'].data['files']:
-                    if f['digest'] is not None:
-                        secrets.append(('file-digest', bytes(f['digest']), False))
-                for c in s['chunks']:
-                    secrets.append(('chunk-bytes', c, True))
-                props = s['repo'].props
-                for d in s['result'].chunks[:6]:
-                    secrets.append(('chunk-key', props.derive_shared_subkey(bytes(d)), False))
+                secrets += snapshot_secrets(s, tree, note, mt)
             secrets.append(('path', str(w.src).encode(), False))
             if snaps and r.random() < 0.5:
                 w.delete(snaps[0]['user'], [snaps[0]['name']])
             if r.random() < 0.5:
                 w.clean(r.randrange(len(w.keys)))
-            for ui in range(len(w.keys)):
-                p = w.repo(ui).props
-                secrets.append(('user-key', p.userkey, False))
-                for k in ('shared_key', 'mac_params', 'chunker_params', 'shared_kdf_params'):
-                    secrets.append(('private:' + k, bytes(p.private[k]), False))
-            for pw in pws:
-                secrets.append(('password', pw, False))
-            # ---- what an observer has
-            observed = []
-            for e in w.backend.events:
-                if e[0] == 'put':
-                    observed.append(('object ' + e[1][:20], e[2]))
-                    observed.append(('name', e[1].encode()))
-            for ui in range(len(w.keys)):
-                observed.append(('key file %d' % ui, w.serialized_key(ui)))
-            for cmd, text in w.stdout:
-                observed.append(('stdout of ' + cmd, text.encode()))
-            hay = b'\x00|\x00'.join(b for _, b in observed)
-            hits = set()
-            nsearch = 0
-            for label, sec_bytes, win in secrets:
-                if len(sec_bytes) < 6:
-                    continue
-                for piece in (windows(sec_bytes) if win else [sec_bytes]):
-                    for fname, pat in forms(piece):
-                        nsearch += 1
-                        if pat in hay and (label, fname) not in hits:
-                            hits.add((label, fname))
-                            where = next(lbl for lbl, b in observed if pat in b)
-                            res['violations'].append((f'c05:leak:{label}', f'{label} visible ({fname}) in {where}: …{pat[:24]!r}…',
-                                                      {'secret': label, 'form': fname, 'where': where}))
+            secrets += key_secrets(w, pws)
+            nsearch, nhay = scan(observed_of(w), secrets, res['violations'])
             # ---- nonces
             seen = {}
             for key, nonce, out in calls:
@@ -169,25 +230,143 @@ def w_scan(arg):
             if len({n for _, n, _ in calls}) < len(calls) and not any(v[0] == 'c05:nonce-reuse' for v in res['violations']):
                 res['violations'].append(('c05:nonce-repeat-across-keys', 'a nonce value was drawn twice', {}))
             # ---- config: algorithm settings only
-            cfg = json.loads(w.backend.objects['config'])
-
-            def walk(o, path=''):
-                if isinstance(o, dict):
-                    for k, v in o.items():
-                        if k not in SETTING_KEYS:
-                            res['violations'].append(('c05:config:non-setting', f'config member {path}/{k} is not an algorithm setting', {'member': k}))
-                        walk(v, path + '/' + k)
-                elif not isinstance(o, (str, int)) or (isinstance(o, str) and not re.fullmatch(r'[a-z0-9_]{1,24}', o)):
-                    res['violations'].append(('c05:config:non-setting', f'config value at {path} is {o!r}', {'member': path}))
-            walk(cfg)
+            check_config(json.loads(w.backend.objects['config']), res['violations'])
             res['summary'] = {'cipher': (cipher or {}).get('name'), 'key_bits': (cipher or {}).get('key_bits'), 'hash': hashing, 'params': [mn, mx], 'keys': len(w.keys),
-                              'snapshots': nsnap, 'secrets': len(secrets), 'searches': nsearch, 'observed_bytes': len(hay), 'encryptions': len(calls)}
+                              'snapshots': nsnap, 'secrets': len(secrets), 'searches': nsearch, 'observed_bytes': nhay, 'encryptions': len(calls)}
             res['nontrivial'] = nsnap >= 1 and any(s['note'] for s in snaps) and len(w.keys) >= 2 and all(len(s['files']) >= 2 for s in snaps)
             res['dist'] = ['scan:cipher:%s/%s' % ((cipher or {}).get('name'), (cipher or {}).get('key_bits')), 'scan:hash:%s' % ((hashing or {}).get('name'),),
                            'scan:keys:%d' % len(w.keys)]
-            res['counts'] = {'scan:searches': nsearch, 'scan:encryptions': len(calls), 'scan:observed-bytes': len(hay)}
+            res['counts'] = {'scan:searches': nsearch, 'scan:encryptions': len(calls), 'scan:observed-bytes': nhay}
     finally:
         adapters.AEADCipherAdapterMixin.encrypt = orig
+    return res
+
+
+@H.guarded
+def w_client(arg):
+    """client-state world with the REAL ciphers: 2–3 repositories (different encryption modes, ciphers, hashes, chunking) and
+    re-initialised locations behind ONE machine — cache directory shared / per location / none, interleaved commands, a fresh
+    client per command.  Every ENCRYPTED repository (incarnation) is scanned: its uploads, names, key files and stdout against
+    its own secrets.  The secrets are collected by the harness (key material through a client WITHOUT local state)."""
+    seed, idx, tier = arg
+    from .. import common
+    common.use_rebuilt_chunker()
+    r = rng_for(seed, 'C05-client', idx)
+    pattern = list(r.choice(H.PATTERNS))
+    cache = r.choice(H.CACHE_MODES)
+    res = {'idx': idx, 'violations': [], 'problems': [], 'dist': ['client:cache:' + cache, 'client:pattern:' + ''.join('E' if e else 'P' for e in pattern)]}
+    cnt = {'client:searches': 0, 'client:observed-bytes': 0, 'client:incarnations': 0, 'client:encrypted-incarnations-scanned': 0, 'client:reinits': 0,
+           'client:views': 0, 'client:stale-views': 0, 'client:enc-snapshots-after-foreign-unlock': 0, 'client:failed-commands': 0, 'client:commands': 0}
+    with R.Scratch('c05c_%d' % idx) as sc:
+        ticker = {'t': 0}
+        shared_dir = sc.dir('cache_shared')
+        pool = [r.randbytes(r.choice([32, 70, 40])) for _ in range(3)]       # contents that may be backed up to several repositories
+        unlocked_modes = {}
+        ninc = [0]
+
+        def cache_of(loc):
+            return {'shared': shared_dir, 'per-location': sc.dir('cache_loc%d' % loc), 'none': None}[cache]
+
+        def cache_key(loc):
+            return {'shared': 'shared', 'per-location': 'loc%d' % loc, 'none': None}[cache]
+
+        def start(L, enc):
+            k = ninc[0]
+            ninc[0] += 1
+            cipher = CIPHERS[(idx + k) % len(CIPHERS)] if enc else None
+            hashing = HASHES[(idx // len(CIPHERS) + k) % len(HASHES)]
+            mn, mx = r.choice(H.CHUNKING)
+            L['backend'].objects.clear()
+            L['backend'].events = []
+            L['pws'] = [b'correct horse %d %s' % (k, r.randbytes(4).hex().encode())]
+            L['enc'], L['secrets'], L['snaps'], L['nviews'], L['inc'] = enc, [], [], 0, k
+            L['summary'] = {'cipher': (cipher or {}).get('name'), 'key_bits': (cipher or {}).get('key_bits'), 'hash': hashing, 'params': [mn, mx]}
+            L['blocks'] = [r.randbytes(r.choice([mx, 2 * mx + 4, 40])) for _ in range(2)] + (pool if r.random() < 0.5 else [])
+            L['w'] = T.SymWorld(sc, R.settings_for(enc, cipher, hashing, {'name': 'gclmulchunker', 'min_length': mn, 'max_length': mx}), password=L['pws'][0],
+                                backend=L['backend'], cache_directory=cache_of(L['loc']), src_name='src%d' % L['loc'], ticker=ticker)
+            cnt['client:incarnations'] += 1
+
+        def close(L):
+            """scan the incarnation that ends here (location about to be wiped, or end of the case)"""
+            w = L['w']
+            if not L['enc']:
+                return
+            secrets = list(L['secrets'])
+            secrets.append(('path', str(w.src).encode(), False))
+            try:
+                secrets += key_secrets(w, L['pws'], cache_directory=None)
+            except Exception as e:  # noqa: BLE001
+                res['problems'].append('key material of incarnation %d not available to a state-less client: %s: %s' % (L['inc'], type(e).__name__, e))
+            extra = {'incarnation': L['inc'], 'location': L['loc'], 'repository': L['summary']}
+            n, nb = scan(observed_of(w), secrets, res['violations'], extra)
+            cnt['client:searches'] += n
+            cnt['client:observed-bytes'] += nb
+            cnt['client:encrypted-incarnations-scanned'] += 1
+            if 'config' in w.backend.objects:
+                check_config(json.loads(w.backend.objects['config']), res['violations'])
+
+        locs = [{'loc': i, 'backend': T.RecBackend(), 'w': None, 'want': e} for i, e in enumerate(pattern)]
+        trace = []
+        for _ in range(r.choice([6, 8, 10])):
+            L = r.choice(locs)
+            if L['w'] is None:
+                start(L, L['want'])
+            elif L['snaps'] and r.random() < (0.3 if cache == 'per-location' else 0.08):
+                close(L)
+                start(L, not L['enc'])
+                cnt['client:reinits'] += 1
+                trace.append('reinit@%d' % L['loc'])
+                continue
+            w = L['w']
+            ck = cache_key(L['loc'])
+            foreign = ck is not None and any(m != L['enc'] for m in unlocked_modes.get(ck, ()))
+            q = r.random()
+            kind = 'add_key' if (L['enc'] and q < 0.15 and len(w.keys) < 3) else 'snapshot' if (q < 0.75 or not L['snaps']) else 'delete' if q < 0.9 else 'clean'
+            trace.append('%s@%d' % (kind, L['loc']))
+            cnt['client:commands'] += 1
+            try:
+                if kind == 'add_key':
+                    L['pws'].append(b'battery staple %d %s' % (L['inc'], r.randbytes(4).hex().encode()))
+                    w.add_key(r.randrange(len(w.keys)), r.random() < 0.6, L['pws'][-1])
+                elif kind == 'snapshot':
+                    names = ['alpha-%08x' % r.getrandbits(32), 'beta-%08x.bin' % r.getrandbits(32), 'dir-%08x/gamma-%08x' % (r.getrandbits(32), r.getrandbits(32))]
+                    tree = {}
+                    for nm in names[:r.choice([2, 3])]:
+                        tree[nm] = b''.join(r.choice(L['blocks']) for _ in range(r.choice([1, 2]))) + r.randbytes(r.choice([0, 5, 17]))
+                    note = 'note-%016x' % r.getrandbits(64) if r.random() < 0.8 else None
+                    mt = {nm: 1_700_000_000_000_000_000 + r.randrange(10 ** 17) for nm in tree}
+                    # what must stay secret is known BEFORE the command runs (a command that dies half-way may already have uploaded)
+                    L['secrets'] += snapshot_secrets(None, tree, note, mt, 'inputs')
+                    s = w.snapshot(r.randrange(len(w.keys)), tree, note=note, mtimes=mt)
+                    L['snaps'].append(s)
+                    L['secrets'] += snapshot_secrets(s, tree, note, mt, 'results')
+                    if L['enc'] and foreign:
+                        cnt['client:enc-snapshots-after-foreign-unlock'] += 1
+                elif kind == 'delete':
+                    sn = r.choice(L['snaps'])
+                    w.delete(sn['user'], [sn['name']])
+                else:
+                    w.clean(r.randrange(len(w.keys)))
+            except Exception as e:  # noqa: BLE001
+                cnt['client:failed-commands'] += 1
+                res['problems'].append('%s on location %d (incarnation %d, %s) failed: %s: %s' % (kind, L['loc'], L['inc'], 'encrypted' if L['enc'] else 'unencrypted',
+                                                                                                  type(e).__name__, str(e)[:120]))
+            new_views = w.views[L['nviews']:]
+            L['nviews'] = len(w.views)
+            cnt['client:views'] += len(new_views)
+            stale = sum(1 for v in new_views if v != L['enc'])
+            cnt['client:stale-views'] += stale
+            if stale:
+                res['problems'].append('a client of location %d (incarnation %d, %s) concluded encrypted=%s' % (L['loc'], L['inc'], 'encrypted' if L['enc'] else 'unencrypted', not L['enc']))
+            if new_views and ck is not None:
+                unlocked_modes.setdefault(ck, set()).add(L['enc'])
+        for L in locs:
+            if L['w'] is not None:
+                close(L)
+        res['summary'] = {'client_world': True, 'cache': cache, 'pattern': ''.join('E' if e else 'P' for e in pattern), 'trace': trace,
+                          'incarnations': cnt['client:incarnations'], 'searches': cnt['client:searches']}
+        res['nontrivial'] = cnt['client:enc-snapshots-after-foreign-unlock'] >= 1
+        res['counts'] = cnt
     return res
 
 
@@ -237,24 +416,62 @@ def w_long(arg):
     return res
 
 
+def account_sym(out, drv, obs, rp, label, count_prefix='sym'):
+    """one symbolic history (a whole case, or one repository of a client-state world): tie + verdicts of the model's predicates"""
+    st = obs['stats']
+    for kind, what in obs['problems']:
+        if kind in ('delete-uploads', 'clean-uploads'):
+            out.violation('c05:' + kind, what, rp)
+        else:
+            out.disagreement(f'{label}: {kind}: {what}', rp)
+    if drv is None:
+        return
+    bad, verdict = H.judge(obs, drv)
+    if bad:
+        out.disagreement(f'{label}: ' + '; '.join(bad[:3]), rp)
+    elif not obs['problems']:
+        out.traces_validated += 1
+    if obs['encrypted']:
+        for role, name in verdict['nonpublic'][:4]:
+            out.violation(f'c05:symbolic:non-public:{role}', f'{label}: {role} {name[:40]} written by the real code is not Public (exposes a secret atom to a key-less observer)',
+                          dict(rp, role=role, name=name))
+        for role, name in verdict['unkeyed'][:4]:
+            out.violation('c05:symbolic:name-not-keyed', f'{label}: object name {name[:40]} is not a keyed MAC / hash of ciphertext', dict(rp, name=name))
+        if verdict['nonce_reuse']:
+            out.violation('c05:symbolic:nonce-reuse', f'{label}: {verdict["nonce_reuse"]} encryption(s) reused a nonce', rp)
+    else:
+        # negative control: the predicate does notice plaintext (unencrypted repositories store it)
+        out.count(count_prefix + ':plain:non-public-noticed', int(bool(verdict['nonpublic'])))
+        if st['puts'] > 1 and (st['max_files'] >= 1 or st['notes'] >= 1) and not verdict['nonpublic']:     # (a snapshot of nothing, without a note, holds no secret)
+            out.disagreement(f'{label}: Public did not flag the plaintext objects of an unencrypted repository', rp)
+
+
 def run(out, drv, info):
     quick = out.tier == 'quick'
     n_sym, n_scan = (300, 360) if quick else (1500, 1800)
+    n_world, n_client = (160, 120) if quick else (900, 700)
     out.rule = ('cases: (a) symbolic history = encrypted settings × 5–9 ops of add-key (shared / independent) / snapshot / delete / clean by up to 4 keys on the real '
                 'Repository with tagged adapters, parsed and compared with sym.run + classified by Public/nameKeyed; (b) real-cipher scan = every (cipher, key size) × '
-                'every hash × history with 1–3 keys, 1–3 snapshots, delete/clean.  non-trivial: ≥ 1 snapshot with a note, ≥ 2 files, ≥ 2 keys; distinct = hash of the '
-                'case summary')
+                'every hash × history with 1–3 keys, 1–3 snapshots, delete/clean; (c) client-state world = 2–3 repositories with different encryption modes (+ locations '
+                're-initialised with the opposite mode) behind one machine: cache directory shared by all / per location / none, 6–10 interleaved commands, a fresh client '
+                'per command — tagged (each repository vs runView of its own history, fed with the views of the real clients) and with the real ciphers (every encrypted '
+                'repository scanned).  non-trivial: ≥ 1 snapshot with a note, ≥ 2 files, ≥ 2 keys; for (c): an ENCRYPTED repository takes a snapshot after a client of a '
+                'repository with the other encryption mode was unlocked through the same cache directory; distinct = hash of the case summary')
     out.assumptions = ['ideal cryptography: hash/MAC/KDF/AEAD are free constructors of the term algebra (no collision, no forgery, ciphertext reveals nothing but its nonce)',
                        'os.urandom yields fresh values (supply counter in the model, counter-based unique bytes in the tagged runs)',
                        'lengths, timing and access patterns are not hidden and the property does not ask for it; debug-level log output is not "at rest"',
-                       'the scan is a search for a concrete leak (supporting role); secrecy itself is the theorem about `written`']
+                       'the scan is a search for a concrete leak (supporting role); secrecy itself is the theorem about `written`',
+                       'client state = the cache directory handed to `Repository` (the only local state replicat keeps between commands); it is produced by real commands of '
+                       'real clients only (no hand-made cache entries); the local cache itself is not "the repository at rest"']
     ctx = mp.get_context('fork')
     with ctx.Pool(min(16, os.cpu_count() or 4)) as pool:
         a = pool.map_async(w_symbolic, [(out.seed, i, out.tier) for i in range(n_sym)], chunksize=2)
+        d = pool.map_async(w_world, [(out.seed, i, out.tier) for i in range(n_world)], chunksize=2)
         b = pool.map_async(w_scan, [(out.seed, i, out.tier) for i in range(n_scan)], chunksize=2)
+        e = pool.map_async(w_client, [(out.seed, i, out.tier) for i in range(n_client)], chunksize=2)
         c = pool.map_async(w_long, [(out.seed, i, out.tier) for i in range(10 if quick else 60)], chunksize=1)
-        sym, scans = a.get(), b.get()
-        scans = scans + c.get()
+        sym, worlds, scans = a.get(), d.get(), b.get()
+        scans = scans + e.get() + c.get()
     for obs in sym:
         if obs.get('crashed'):
             out.case({'crashed': obs['idx']}, False)
@@ -270,31 +487,33 @@ def run(out, drv, info):
         out.count('sym:encryptions', st['encryptions'])
         out.count('sym:removals', st['deletes'] + st['cleans'])
         rp = {'kind': 'sym', 'seed': out.seed, 'idx': obs['idx'], 'tier': out.tier}
-        for kind, what in obs['problems']:
-            if kind in ('delete-uploads', 'clean-uploads'):
-                out.violation('c05:' + kind, what, rp)
-            else:
-                out.disagreement(f'symbolic history #{obs["idx"]}: {kind}: {what}', rp)
-        if drv is None:
+        account_sym(out, drv, obs, rp, f'symbolic history #{obs["idx"]}')
+    for res in worlds:
+        if res.get('crashed'):
+            out.case({'crashed': res['idx']}, False)
+            out.disagreement(f'client-state world #{res["idx"]} could not be driven / interpreted: {res["what"]}', {'kind': 'crash', 'idx': res['idx'], 'trace': res['trace']})
             continue
-        bad, verdict = H.judge(obs, drv)
-        if bad:
-            out.disagreement(f'symbolic history #{obs["idx"]}: ' + '; '.join(bad[:3]), rp)
-        elif not obs['problems']:
-            out.traces_validated += 1
-        if obs['encrypted']:
-            for role, name in verdict['nonpublic'][:4]:
-                out.violation(f'c05:symbolic:non-public:{role}', f'{role} {name[:40]} written by the real code is not Public (exposes a secret atom to a key-less observer)',
-                              dict(rp, role=role, name=name))
-            for role, name in verdict['unkeyed'][:4]:
-                out.violation('c05:symbolic:name-not-keyed', f'object name {name[:40]} is not a keyed MAC / hash of ciphertext', dict(rp, name=name))
-            if verdict['nonce_reuse']:
-                out.violation('c05:symbolic:nonce-reuse', f'{verdict["nonce_reuse"]} encryption(s) reused a nonce', rp)
-        else:
-            # negative control: the predicate does notice plaintext (unencrypted repositories store it)
-            out.count('sym:plain:non-public-noticed', int(bool(verdict['nonpublic'])))
-            if st['puts'] > 1 and not verdict['nonpublic']:
-                out.disagreement('Public did not flag the plaintext objects of an unencrypted repository', rp)
+        ws = res['world']
+        out.case({'world': ws, 'repos': [o['stats'] for o in res['repos']]}, ws['enc_snapshots_after_foreign_unlock'] >= 1)
+        out.count('world:cache:' + ws['cache'])
+        out.count('world:pattern:' + ws['pattern'])
+        out.count('world:repositories', ws['incarnations'])
+        out.count('world:reinits', ws['reinits'])
+        out.count('world:client-views', ws['views'])
+        out.count('world:stale-views', ws['stale_views'])
+        out.count('world:failed-commands', ws['failed_commands'])
+        out.count('world:enc-snapshots-after-foreign-unlock', ws['enc_snapshots_after_foreign_unlock'])
+        out.count('world:with-enc-snapshot-after-foreign-unlock', int(ws['enc_snapshots_after_foreign_unlock'] >= 1))
+        for obs in res['repos']:
+            rp = {'kind': 'world', 'seed': out.seed, 'idx': res['idx'], 'tier': out.tier, 'incarnation': obs['inc'], 'location': obs['loc'], 'world': ws}
+            label = f'client-state world #{res["idx"]} ({ws["cache"]} cache, {ws["pattern"]}), repository {obs["inc"]} ({"encrypted" if obs["encrypted"] else "unencrypted"})'
+            out.count('world:repo:' + ('enc' if obs['encrypted'] else 'plain'))
+            out.count('world:uploads', obs['stats']['puts'])
+            stale = sum(1 for v in obs['views'] if v != obs['encrypted'])
+            if stale:
+                # the hypothesis of `client_history_public` fails on the real code (tie); a leak, if any, is reported below from what was written
+                out.disagreement(f'{label}: {stale} of {len(obs["views"])} clients concluded encrypted={not obs["encrypted"]} (views must be the repository\'s own flag)', rp)
+            account_sym(out, drv, obs, rp, label, 'world')
     for res in scans:
         if res.get('crashed'):
             out.case({'crashed': res['idx']}, False)
@@ -305,8 +524,11 @@ def run(out, drv, info):
             out.count(d)
         for k, v in res.get('counts', {}).items():
             out.count(k, v)
+        kind = 'long' if res['summary'].get('long_lived') else 'client' if res['summary'].get('client_world') else 'scan'
+        for what in res.get('problems', [])[:3]:
+            out.disagreement(f'client-state world (real ciphers) #{res["idx"]}: {what}', {'kind': kind, 'seed': out.seed, 'idx': res['idx'], 'tier': out.tier})
         for sig, what, extra in res['violations']:
-            out.violation(sig, what, dict(extra, kind='long' if res['summary'].get('long_lived') else 'scan', seed=out.seed, idx=res['idx'], tier=out.tier, summary=res['summary']))
+            out.violation(sig, what, dict(extra, kind=kind, seed=out.seed, idx=res['idx'], tier=out.tier, summary=res['summary']))
 
 
 def _in_child(fn, arg):
@@ -319,6 +541,8 @@ def _in_child(fn, arg):
 def replay(path, drv):
     d = json.load(open(path))
     rp = d.get('replay', d)
+    if 'kind' not in rp and d.get('correspondence_disagreements'):
+        rp = d['correspondence_disagreements'][0]['replay']       # a broken tie without a failing input: re-run its first case
     if rp.get('kind') == 'sym':
         obs = _in_child(w_symbolic, (rp['seed'], rp['idx'], rp.get('tier', 'quick')))
         bad, verdict = H.judge(obs, drv) if drv is not None else ([], {})
@@ -326,11 +550,33 @@ def replay(path, drv):
         print('verdict', {k: (v[:5] if isinstance(v, list) else v) for k, v in verdict.items()})
         leak = obs['encrypted'] and (verdict.get('nonpublic') or verdict.get('unkeyed') or verdict.get('nonce_reuse'))
         return 1 if (bad or obs['problems'] or leak) else 0
-    if rp.get('kind') in ('scan', 'long'):
-        res = _in_child(w_long if rp['kind'] == 'long' else w_scan, (rp['seed'], rp['idx'], rp.get('tier', 'quick')))
+    if rp.get('kind') == 'world':
+        res = _in_child(w_world, (rp['seed'], rp['idx'], rp.get('tier', 'quick')))
+        if res.get('crashed'):
+            print('crashed', res['what'], res['trace'])
+            return 1
+        print('world', res['world'])
+        rc = 0
+        for obs in res['repos']:
+            bad, verdict = H.judge(obs, drv) if drv is not None else ([], {})
+            stale = sum(1 for v in obs['views'] if v != obs['encrypted'])
+            print('repository', obs['inc'], 'encrypted' if obs['encrypted'] else 'unencrypted', 'views', obs['views'], 'stats', obs['stats'], 'problems', obs['problems'][:3],
+                  'disagreements', bad[:5])
+            print('  verdict', {k: (v[:5] if isinstance(v, list) else v) for k, v in verdict.items()})
+            leak = obs['encrypted'] and (verdict.get('nonpublic') or verdict.get('unkeyed') or verdict.get('nonce_reuse'))
+            if bad or obs['problems'] or leak or stale:
+                rc = 1
+        return rc
+    if rp.get('kind') in ('scan', 'long', 'client'):
+        res = _in_child({'long': w_long, 'client': w_client, 'scan': w_scan}[rp['kind']], (rp['seed'], rp['idx'], rp.get('tier', 'quick')))
+        if res.get('crashed'):
+            print('crashed', res['what'], res['trace'])
+            return 1
         print('summary', res['summary'])
         for v in res['violations']:
             print('violation', v[0], v[1])
-        return 1 if res['violations'] else 0
+        for pb in res.get('problems', []):
+            print('problem', pb)
+        return 1 if (res['violations'] or res.get('problems')) else 0
     print('replay kind not supported')
     return 2
